@@ -1,13 +1,14 @@
 (* Correspondence + oracle entry point for C03 (and the encoder half of C06):
    case = (c03 (msg|nil ...) ((#in #out)...) ((#in #out)...) (lines (l #..) ...)|panic)
      - the message list handed to OutboundMessagesToRawPanelASCIIstrings,
-     - the oracle tables of stripLineBreaks / stripLineBreaksSvg on the payload strings present,
+     - the implementation's stripLineBreaks / stripLineBreaksSvg on the payload strings present
+       (informative; the model uses Model/Flatten.v),
      - the returned strings, or `panic`.
    (a) the model [enc_out] is run with the map iteration orders read back from the observed
        lines (each must be a permutation of the message's map) and compared line by line;
    (b) independently, the observed lines are read by the reference grammar reader and compared
        with [den_out] of the messages (spec oracle), for representable messages. *)
-From RP Require Import Lib.Base Lib.Sexp Lib.Strings Model.MsgOut Model.EncOut Model.DecOut Spec.DenoteOut Spec.GrammarOut.
+From RP Require Import Lib.Base Lib.Sexp Lib.Strings Model.MsgOut Model.Flatten Model.EncOut Model.DecOut Spec.DenoteOut Spec.GrammarOut.
 From Coq Require Import String.
 Open Scope Z_scope.
 
@@ -138,8 +139,10 @@ Definition run_case (s : sexp) : sexp :=
     if bytes_eqb n (str "c03") then
       match dx_msgs ms, dx_table ft, dx_table st with
       | Some ms, Some ft, Some st =>
-        let flat := tab_lookup ft in
-        let flat_svg := tab_lookup st in
+        (* the payload flattening is the model of Model/Flatten.v (C07); the tables printed by the
+           harness are the implementation's values and are only cross-checked through the lines *)
+        let flat := strip_lb in
+        let flat_svg := strip_lb_svg in
         match out with
         | L (S _ :: ls) => match dx_lines ls with Some obs => judge flat flat_svg ms (Some obs) | None => v_badcase end
         | S _ => judge flat flat_svg ms None
